@@ -162,6 +162,25 @@ func (m *Machine) symLoad(p *SymRef) value {
 			continue
 		}
 		c := m.tt.Eq(p.idx, m.tt.Const(p.idx.W, uint64(i)))
+		// run-length form for tables of constants (e.g. a 10000-entry bucket table with a few ranges
+		// set): cells j..i holding the same constant become one guard j <= idx <= i
+		if tv, ok := v.(*Term); ok && tv.IsConst() {
+			j := i
+			for j > 0 {
+				u, ok := load(cellAt(&p.base[j-1], p.path)).(*Term)
+				if !ok || !u.IsConst() || u.W != tv.W || u.Val != tv.Val {
+					break
+				}
+				j--
+			}
+			if j < i {
+				c = m.tt.Cmp("bvule", p.idx, m.tt.Const(p.idx.W, uint64(i)))
+				if j > 0 {
+					c = m.tt.And(m.tt.Cmp("bvuge", p.idx, m.tt.Const(p.idx.W, uint64(j))), c)
+				}
+				i = j
+			}
+		}
 		r, ok := m.mergeVals(c, v, res)
 		if !ok {
 			// fall back to concretizing the index
